@@ -141,6 +141,25 @@ def run(ctx: Context) -> None:
             site = next((c for c, k, cs in cats_all.values() if cat in cs), lp)
             ctx.check('R16.2', cat in have, f"{text} of every geometry variable is fed to the hash", fi, site,
                       construct=f"feed of {cat}: " + (norm_text(site) if cat in have else 'absent'))
+        # which type: the type of the values that are hashed, not only the type they had on disk
+        dt_feeds = [(c, c.args[-1]) for c, k, cs in cats_all.values() if 'dtype' in cs]
+        in_memory_always = False
+        normalised = False
+        for c, v in dt_feeds:
+            nodes = [n for n, _ in flow.expand(v)]
+            gets = [n for n in nodes if isinstance(n, ast.Call) and isinstance(n.func, ast.Attribute) and n.func.attr == 'get' and n.args
+                    and const_value(n.args[0], None) == 'dtype' and 'encoding' in norm_text(n.func.value)]
+            mem = [n for n in nodes if isinstance(n, ast.Attribute) and n.attr == 'dtype' and norm_text(n.value).split('.')[0] == arr_var and not any(any(x is n for x in ast.walk(g)) for g in gets)]
+            if mem:
+                in_memory_always = True
+            if any(isinstance(n, ast.Call) and callee(ctx, fi, n) == 'numpy.dtype' for n in nodes):
+                normalised = True
+        ctx.check('R16.2', in_memory_always, "the type of the values in memory enters the key on every path: an on-disk type from the encoding may be fed as well but not instead "
+                  "(decoded float64 connectivity re-typed with the same bytes, or the same variable with and without its encoding, must not share / split keys)", fi,
+                  dt_feeds[0][0] if dt_feeds else lp,
+                  construct=f"dtype feed: {norm_text(flow.resolve(dt_feeds[0][1]))[:120] if dt_feeds else 'absent'}; in-memory dtype fed unconditionally: {in_memory_always}")
+        ctx.check('R16.2', normalised, "a type taken from the encoding is normalised with numpy.dtype(...) before its name is read (xarray accepts 'float32' and numpy.float32 there)", fi,
+                  dt_feeds[0][0] if dt_feeds else lp, construct=f"numpy.dtype(...) on the way to the feed: {normalised}")
         # size and shape are fed before the raw bytes (they delimit them)
         order = [(c.lineno, c.col_offset, cs) for c, k, cs in cats_all.values()]
         order.sort()
@@ -238,6 +257,8 @@ from ..variants import V  # noqa: E402
 _B = 'src/emsarray/conventions/_base.py'
 _C = 'src/emsarray/operations/cache.py'
 VARIANTS = [
+    V('C16', 'benign-in-memory-dtype-fed-as-well', 'src/emsarray/conventions/_base.py', "            hash_string(hash, dtype.name)\n", "            hash_string(hash, dtype.name)\n            hash_string(hash, data_array.values.dtype.name)\n", None),
+    V('C16', 'dtype-name-of-raw-encoding-value', 'src/emsarray/conventions/_base.py', "            dtype = numpy.dtype(data_array.encoding.get('dtype', data_array.values.dtype))", "            dtype = data_array.encoding.get('dtype', data_array.values.dtype)", 'R16.2'),
     V('C16', 'name-feed-deleted', _B, "            hash_string(hash, str(geometry_name))\n", "", 'R16.2'),
     V('C16', 'shape-feed-deleted', _B, "            hash.update(numpy.array(data_array.shape, dtype='int32').tobytes('C'))\n", "", 'R16.2'),
     V('C16', 'attrs-feed-deleted', _B, "            hash_attributes(hash, data_array.attrs)\n", "", 'R16.2'),
